@@ -125,6 +125,12 @@ chk("C16", "vsched",
     "36 known findings (34 lost updates that undo an acknowledged disable/delete, keyed by the undone action x concurrent handler, and 2 double-spends) stem from whole-profile load-modify-save without a version check and are listed in known_findings.jsonl. Preemption inside a storage operation or inside library code is outside the bound; fields without probes are left to the Go race detector.",
     "DESIGN.md 3 C16")
 
+chk("C09", "venum+vsched",
+    "exhaustive enumeration (routes while sealed; passphrase variants x delivery x deployment) on the real handlers, and stateless model checking of injection threads racing ordinary requests under the controlled scheduler with vector-clock analysis of the signer fields",
+    "(a) every service-mux route of the current source plus the admin-port handlers x GET/POST x {no credential, basic-auth, session cookie and client certificate minted by a sibling instance holding the same CA key} x {with / without that key listed as trusted public key} against a sealed instance: no certificate, cookie or token leaves, /readyz says not ready, signer state unchanged. (b) ~120 passphrase variants (correct, empty, every proper prefix, every single-character deletion, three substitutions per position, every transposition, suffix, case-folded, NUL/newline, 1 MiB) x {no TLS, TLS without verified chain, verified chain} x {RSA, RSA+Ed25519, Ed25519 file sealed with another passphrase}: only the correct passphrase over a verified chain unseals; a failed attempt changes no signer-derived field and a later correct attempt works; a repeated injection has no effect; after unsealing the published SSH CA, X.509 CA and JWKS keys include the keys that sign. (c) under vsched, every schedule with <= 2 preemptions (thorough 3, five threads) of {inject-correct x2, inject-wrong} racing pairs of {readyz, x509ca, jwks, login, certgen, userinfo, token}, with yield points inside unsealCA/loadSignersFromPemData: exactly one acknowledged transition and one readiness signal, no duplicated CA material, no deadlock or panic, ordinary responses are sealed errors or complete successes under the finally published CA, and no unordered conflicting access to Signer, Ed25519Signer, caCertDer, selfRoleCaCertDer, KeymasterPublicKeys.",
+    "Trusted: x/crypto/openpgp. A handler panic on a sealed instance is fail-closed and recorded, not a violation.",
+    "DESIGN.md 3 C09")
+
 NOT_YET = {
 }
 
